@@ -417,7 +417,7 @@ func socketAliases(fn *ssa.Function) map[ssa.Value]bool {
 				return
 			}
 			n := calleeName(call.Common())
-			wraps := n == "crypto/tls.Server" || strings.HasSuffix(n, "redis.newConnWith")
+			wraps := n == "crypto/tls.Server" || wrapsSocket(call)
 			if !wraps {
 				return
 			}
@@ -981,6 +981,24 @@ func (p *Program) reachesFromStop(fn *ssa.Function) bool {
 			if inFramework(cal) {
 				st = append(st, cal)
 			}
+		}
+	}
+	return false
+}
+
+// wrapsSocket: a repository function taking a net.Conn and returning a value that embeds it
+// (*redis.Conn): the connection constructor, whatever its name.
+func wrapsSocket(call *ssa.Call) bool {
+	callee := staticCallee(call.Common())
+	if callee == nil || !inFramework(callee) {
+		return false
+	}
+	if !strings.HasSuffix(call.Type().String(), "redis.Conn") {
+		return false
+	}
+	for _, p := range callee.Params {
+		if p.Type().String() == "net.Conn" {
+			return true
 		}
 	}
 	return false
